@@ -42,7 +42,9 @@ def gen(rng, tier):
             "wait": rng.random() < 0.7, "settle": 5.0,
             # a further shutdown() by the same thread afterwards (e.g. leaving a `with` block after an
             # explicit shutdown(wait=False)): harmless - in particular no second sweep
-            "again": rng.choice([None, None, None, True, False]), "again_at": rng.choice([0, 0.05])}
+            "again": rng.choice([None, None, None, True, False]), "again_at": rng.choice([0, 0.05]),
+            # the less common keyword: passed down the chain, never a reason to skip the sweep
+            "cancel_futures": rng.choice([None, None, True, False])}
     spec["sim"] = runner.draw_sim_cfg(rng, est=400)
     if spec["shutdown_await"] or any(op[0] == "await" for ops in clients for op in ops):
         runner.prefer_place(spec["sim"], 0.3)
@@ -112,7 +114,8 @@ def run(spec, env):
             env.sleep(spec["shutdown_at"])
         i = env.rec("shutdown")
         env.hit("shutdown-begin")
-        ex.shutdown(spec["wait"])
+        kw = {} if spec.get("cancel_futures") is None else {"cancel_futures": spec["cancel_futures"]}
+        ex.shutdown(spec["wait"], **kw)
         env.rec("shutdown-ret", i)
         if spec.get("again") is not None:
             if spec.get("again_at"):
